@@ -75,7 +75,8 @@ def data_rhs_converted(prog: Program, rep, RID: str, sites: Dict[str, List[str]]
     from rules.common import all_local_defs
     n = 0
     for cname, methods in sites.items():
-        for mname in methods:
+        # every method of the class is scanned (a row moved into a helper is still a row of the class)
+        for mname in sorted(prog.cls(cname).methods):
             f = prog.own_method(cname, mname)
             defs = all_local_defs(f.node)
             for c in calls_in(f.node):
